@@ -117,6 +117,12 @@ func run(r *mc.Run) {
 		all = append(all, scenarios("snowflake", programs(2, 1), 2)...)
 		all = append(all, scenarios("etcd", programs(1, 2), 2)...)
 		all = append(all, scenarios("etcd", programs(2, 1), 2)...)
+		// two masters, three operations in total (e.g. SetMax then NextFileId on one master racing a batch fetch on the other)
+		for _, sc := range scenarios("etcd", programs(2, 2), 2) {
+			if len(sc.Threads[0])+len(sc.Threads[1]) == 3 {
+				all = append(all, sc)
+			}
+		}
 	} else {
 		all = append(all, scenarios("memory", programs(2, 1), 3)...)
 		all = append(all, scenarios("snowflake", programs(2, 1), 2)...)
